@@ -18,7 +18,8 @@
 (***************************************************************************)
 EXTENDS Eq
 
-Hand(s, q) == IF q.ok THEN {[s |-> s, str |-> Printed(q), uri |-> Uri(q)]} ELSE {}
+(* via: "qn" = handed out for a QualifiedName object, "str" = for a string *)
+Hand(s, q, via) == IF q.ok THEN {[s |-> s, str |-> Printed(q), uri |-> Uri(q), via |-> via]} ELSE {}
 MgrOf(ms, h) == ms.con[h].mgr
 
 (* ---- namespace operations on a container h ---- *)
@@ -31,11 +32,11 @@ DoSetDefault(ms, a) ==
 
 DoResQN(ms, a) ==
   LET r == ResolveQNF(ms.mgr[MgrOf(ms, a.h)], a.p, a.ns, a.l) IN
-  Ok([ms EXCEPT !.mgr[MgrOf(ms, a.h)] = r.st, !.handed = @ \cup Hand(a.h, r.q)], r.q)
+  Ok([ms EXCEPT !.mgr[MgrOf(ms, a.h)] = r.st, !.handed = @ \cup Hand(a.h, r.q, "qn")], r.q)
 
 DoResStr(ms, a) ==
   LET q == ResolveStrF(ms.mgr, MgrOf(ms, a.h), a.str) IN
-  Ok([ms EXCEPT !.handed = @ \cup Hand(a.h, q)], q)
+  Ok([ms EXCEPT !.handed = @ \cup Hand(a.h, q, "str")], q)
 
 (* Export(h, seq): exports do not change the state (C13), except that the exporters   *)
 (* which unify first re-validate names in bundles holding duplicate identifiers       *)
@@ -113,7 +114,7 @@ ProjAllCon(ms) == [h \in DOMAIN ms.con |-> ProjCon(ms.con[h])]
 
 (* re-resolution table of every handed-out name, as the harness logs it;     *)
 (* `up' is what the parent scope alone makes of the printed form            *)
-ReRes(ms) == {[s |-> e.s, str |-> e.str, uri |-> e.uri,
+ReRes(ms) == {[s |-> e.s, str |-> e.str, uri |-> e.uri, via |-> e.via,
                now |-> ResolveStrF(ms.mgr, MgrOf(ms, e.s), e.str),
                up  |-> IF ms.con[e.s].doc # ""
                        THEN LocalStr(ms.mgr[MgrOf(ms, ms.con[e.s].doc)], e.str)
